@@ -54,7 +54,12 @@ func VerifC04Reset() {
 	tag := []string{"!reset", "!override"}[vrtChoice("tag", 2)]
 	base := map[string]any{"services": map[string]any{svcName: map[string]any{
 		"image": "i", "command": []any{"base", v}, "environment": map[string]any{"B": v, "K": "base"}, "ports": []any{"8080:80"},
-		"hostname": "h" + v, "labels": map[string]any{"b": v, "com.example.x": "dotted"}, "user": "keep"}}}
+		"hostname": "h" + v, "labels": map[string]any{"b": v, "com.example.x": "dotted"}, "user": "keep",
+		// neighbours: attributes whose names start with the name of a tagged one, and a second tagged attribute
+		"dns": []any{"1.1.1.1"}, "dns_search": []any{"a.example"}, "dns_opt": []any{"o" + v}}}}
+	// a second service, whose name starts with the first one's, carries the same attributes and is never tagged
+	base["services"].(map[string]any)[svcName+"2"] = map[string]any{"image": "i2", "command": []any{"two", v}, "dns": []any{"2.2.2.2"}, "labels": map[string]any{"com.example.x": "two"}}
+	second := vrtChoice("secondTagged", 3) // 0 none, 1 `dns: !reset`, 2 `dns: !override [...]`
 	vrtYamlFile(w+"/compose.yaml", base)
 	var val *yaml.Node
 	switch attr {
@@ -85,9 +90,22 @@ func VerifC04Reset() {
 	} else {
 		body = nMap(nStr(attr), val, nStr("working_dir"), nStr("/w"+v))
 	}
+	switch second {
+	case 1:
+		body.Content = append([]*yaml.Node{nStr("dns"), {Kind: yaml.ScalarNode, Value: "null", Tag: "!reset"}}, body.Content...)
+	case 2:
+		d := nSeq(nStr("9.9.9.9"))
+		d.Tag = "!override"
+		body.Content = append(body.Content, nStr("dns"), d)
+	}
 	over := nMap(nStr("services"), nMap(nStr(svcName), body))
 	vrtYamlNodeFile(w+"/override.yaml", over)
+	if vrtParam("MAPORDER", 0) == 1 {
+		// C02: the result does not depend on the order in which the library's map ranges run
+		vrtMapOrder([]int{0, 3, 4}[vrtChoice("maporder", 3)])
+	}
 	m, err := tcLoadFiles(nil, w+"/compose.yaml", w+"/override.yaml")
+	vrtMapOrder(0)
 	vrtObserve("err", err != nil)
 	vrtAssert("loads", err == nil)
 	if err != nil {
@@ -98,6 +116,26 @@ func VerifC04Reset() {
 	vrtObserve("attr", s[attr])
 	vrtAssert("unmentioned-preserved", s["user"] == any("keep") && s["image"] == any("i"))
 	vrtAssert("other-override-attribute-applied", s["working_dir"] == any("/w"+v))
+	{
+		ds, _ := c04Strs(s["dns_search"])
+		do, _ := c04Strs(s["dns_opt"])
+		vrtAssert("attributes-with-longer-names-untouched", len(ds) == 1 && ds[0] == "a.example" && len(do) == 1 && do[0] == "o"+v)
+		d, _ := c04Strs(s["dns"])
+		switch second {
+		case 0:
+			vrtAssert("untagged-attribute-untouched", len(d) == 1 && d[0] == "1.1.1.1")
+		case 1:
+			_, has := s["dns"]
+			vrtAssert("second-reset-removes-attribute", !has)
+		case 2:
+			vrtAssert("second-override-replaces", len(d) == 1 && d[0] == "9.9.9.9")
+		}
+		o := tcSvc(m, svcName+"2")
+		oc, _ := c04Strs(o["command"])
+		od, _ := c04Strs(o["dns"])
+		ol, _ := c04KV(o["labels"])
+		vrtAssert("other-service-untouched", o["image"] == any("i2") && len(oc) == 2 && oc[0] == "two" && len(od) == 1 && od[0] == "2.2.2.2" && ol["com.example.x"] == "two")
+	}
 	if attr == "dotted-label" {
 		kv, _ := c04KV(s["labels"])
 		vrtAssert("sibling-label-kept", kv["b"] == v)
